@@ -311,9 +311,9 @@ def reference_run(cfg, rng_seed, clock_s, src_prefix, outname="out.fits", comput
         shutil.rmtree(d, ignore_errors=True)
 
 
-def fault_run(cfg, rng_seed, clock_s, src_prefix, fault, *, write_stages=True, give_output=True, trace_fits=False, outname="out.fits", compute_kw=None):
+def fault_run(cfg, rng_seed, clock_s, src_prefix, fault, *, write_stages=True, give_output=True, trace_fits=False, outname="out.fits", compute_kw=None, workdir=None, keep_dir=False, check_boundaries=False):
     """One forked run.  fault: None | {"kind","step"}.  Returns dict(report, file_bytes, listing, audit)."""
-    d = tempfile.mkdtemp(prefix="c17case-")
+    d = workdir or tempfile.mkdtemp(prefix="c17case-")
     rfd, wfd = os.pipe()
     pid = os.fork()
     if pid == 0:  # ------------------------------------------------ child
@@ -355,7 +355,7 @@ def fault_run(cfg, rng_seed, clock_s, src_prefix, fault, *, write_stages=True, g
 
             sys.addaudithook(hook)
             tracer_box = [None]
-            io_mode = io_at is not None
+            io_mode = io_at is not None or check_boundaries
             torn = fault if fault and fault.get("kind") == "torn" else None
             if torn:
                 # torn write at the FITS layer's file seam: the n-th write call of the run on a file
@@ -435,6 +435,7 @@ def fault_run(cfg, rng_seed, clock_s, src_prefix, fault, *, write_stages=True, g
             if io_mode:
                 rep["io"] = io["fired"]
                 rep["io_writes_seen"] = io["n"] if not torn else calls["n"]
+                rep["snap_absent"] = [kk for kk in range(1, tr.k + 1) if tr.snaps[kk] is None][:3]
                 # boundaries this run itself completed after the disk error: file vs its own table
                 bad = None
                 for kk in range(1, tr.k + 1):
@@ -485,9 +486,10 @@ def fault_run(cfg, rng_seed, clock_s, src_prefix, fault, *, write_stages=True, g
         fin = os.path.join(d, "side", "final.fits")
         finb = open(fin, "rb").read() if os.path.exists(fin) else None
         listing = sorted(x for x in os.listdir(d) if x != "side")
-        return {"report": rep, "file": fb, "final": finb, "listing": listing}
+        return {"report": rep, "file": fb, "final": finb, "listing": listing, "dir": d}
     finally:
-        shutil.rmtree(d, ignore_errors=True)
+        if not keep_dir:
+            shutil.rmtree(d, ignore_errors=True)
 
 
 # ------------------------------------------------------------------ comparing FITS payloads
